@@ -30,7 +30,9 @@ def one(sid):
 
 with ThreadPoolExecutor(8) as ex:
     out = dict(ex.map(one, ids))
-json.dump(out, open('/verif/seeded/MATRIX.json', 'w'), indent=1, sort_keys=True)
+full = json.load(open('/verif/seeded/MATRIX.json')) if sys.argv[1:] and os.path.exists('/verif/seeded/MATRIX.json') else {}
+full.update(out)
+json.dump(full, open('/verif/seeded/MATRIX.json', 'w'), indent=1, sort_keys=True)
 for sid in ids:
     own = sid[:3]
     res = out[sid]
